@@ -72,6 +72,8 @@ THEOREMS = [
     "Verif.C17.sumSignal_negative_stop_wraps",
     "Verif.C17.centroid_offset_spec",
     "Verif.C17.centroid_true_centre",
+    "Verif.C17.centroid_window_mean",
+    "Verif.C17.centroid_refinement_fills_span",
 ]
 RULE = (
     "corpus (F4: one single-node track, three delimiters; F8: kbp-calibrated and uncalibrated kymograph saved with "
@@ -405,7 +407,7 @@ def impl(case):
     kind = case["kind"]
     if kind == "fmt":
         return [enc_rat(Fraction("%.6e" % float(case["x"])))]
-    n_answers = 5 if kind == "rt" else 1
+    n_answers = 6 if kind == "rt" else 1
     prep = prepare(case)
     if "unreachable" in prep:
         return [with_aux(UNREACHABLE, {"why": prep["unreachable"]})] * n_answers
@@ -429,7 +431,7 @@ def _impl(case, partial):
         try:
             prep["group"].save(path, delimiter=case["delim"], sampling_width=case["sw"], correct_origin=case["co"])
         except Exception as e:
-            return [errname(e)] * 5
+            return [errname(e)] * 6
         text = open(path).read()
         parsed = parse_csv_text(text, case["delim"])
         if "bad" in parsed:
@@ -459,7 +461,12 @@ def _impl(case, partial):
                 raise
             except Exception as e:
                 a5 = "IOError" if isinstance(e, OSError) else errname(e)
-        return [a1, a2, a3, a2, a5]
+        # a6: the file cell by cell, in file order (positional, no look-up by title)
+        if "bad" in parsed:
+            a6 = "bad-file"
+        else:
+            a6 = f"{parsed['version']} {enc_titles(parsed['titles'])} [" + ";".join(",".join(enc_rat(float(x)) for x in r) for r in parsed["rows"]) + "]"
+        return [a1, a2, a3, a2, a5, a6]
     if kind == "read":
         prep = prepare(case)
         path = os.path.join(_TMP, "read.csv")
@@ -627,7 +634,7 @@ def ops(case):
         return ["c17.fmt6 " + enc_rat(float(case["x"]))]
     prep = prepare(case)
     if "unreachable" in prep:
-        return ["c17.fmt6 0/1"] * (5 if kind == "rt" else 1)  # filler: the answers of a skipped case are never compared
+        return ["c17.fmt6 0/1"] * (6 if kind == "rt" else 1)  # filler: the answers of a skipped case are never compared
     info = prep["info"]
     ky = enc_kymo(info)
     if kind == "rt":
@@ -637,7 +644,7 @@ def ops(case):
         all_md = "T" if all(tr["min_duration"] is not None for tr in prep["state0"]) else "F"
         return [f"c17.export {ky} {smp} {img} {g}", f"c17.roundtrip {ky} {smp} {img} {g}",
                 f"c17.titles {info['unit']} {smp} {all_md}", f"c17.fileroundtrip {ky} {info['unit']} {smp} {img} {g}",
-                f"c17.roundtrip2 {ky} {smp} {img} {g}"]
+                f"c17.roundtrip2 {ky} {smp} {img} {g}", f"c17.exportfile {ky} {info['unit']} {smp} {img} {g}"]
     if kind == "sample":
         st = prep["state0"][0]
         return [f"c17.samples {case['w']} {1 if case['co'] else 0} {enc_image(prep['image'])} [" + ",".join(str(int(t)) for t in st["t"]) + "] [" + ",".join(enc_rat(c) for c in st["c"]) + "]"]
@@ -719,6 +726,19 @@ def agree(case, i, ia, ma):
             return True
         if kind == "rt" and i == 2:
             return ia == ma
+        if kind == "rt" and i == 5:
+            va, ta, ca = ia.split(" ")
+            vm, tm, cm = ma.split(" ")
+            if va != vm or ta != tm:
+                return False
+            ra, rm = ca[1:-1].split(";"), cm[1:-1].split(";")
+            if len(ra) != len(rm):
+                return False
+            for x, y in zip(ra, rm):
+                x, y = x.split(","), y.split(",")
+                if len(x) != len(y) or not all(relclose(_rat(u), _rat(v), TOL_RT) if j != len(x) - 1 else float(_rat(u)) == float(_rat(v)) or relclose(_rat(u), _rat(v), TOL_RT) for j, (u, v) in enumerate(zip(x, y))):
+                    return False
+            return True
         if kind in ("rt", "read", "hdr"):
             return same_group(dec_group(ia), dec_group(ma), TOL_RT, md_exact=True)
         if kind == "prog":
